@@ -129,6 +129,13 @@ m("M63_is_last_period_off", F + "entry_point.py", "            is_last_period=is
 m("M64_jit_false_skips_mask", F + "entry_point.py", """    compute_ccv_functions = []""", """    compute_ccv_functions = []
     _jit_flag = jit""", "NONE")
 
+m("M66_default_params_shared_and_updated", F + "input_processing/create_params_template.py", "    return default_params | function_params | stochastic_transition_params", "    default_params.update(function_params)\n    default_params.update(stochastic_transition_params)\n    return default_params", "C07 C09")
+m("M67_user_functions_dict_not_copied", F + "input_processing/process_model.py", "    raw_functions = deepcopy(model.functions)", "    raw_functions = model.functions", "C09")
+m("M68_backward_loop_uses_last_period_values", F + "solve_brute.py", "        reversed_solution.append(vf_arr)", "        reversed_solution.append(vf_arr)\n        vf_arr = reversed_solution[0]", "C01 C11")
+m("M69_dense_argmax_unravel_reversed_shape", F + "simulate.py", "        indices = jnp.unravel_index(dense_argmax, shape=dense_vars_grid_shape)\n        out = ccv_policy[indices]", "        indices = jnp.unravel_index(dense_argmax, shape=dense_vars_grid_shape[::-1])[::-1]\n        out = ccv_policy[indices]", "C02")
+m("M70_cont_choice_unravel_reversed", F + "simulate.py", "        indices = vmapped_unravel_index(indices, grid_shape)", "        indices = vmapped_unravel_index(indices, grid_shape[::-1])[::-1]", "C02")
+m("M71_segment_ids_from_unfiltered_states", F + "simulate.py", "    segments = state_ids[mask]", "    segments = state_ids[: int(mask.sum())]", "C02 C08")
+m("M72_additional_targets_use_template_params", F + "simulate.py", "            params=params,\n        )\n        processed = {**processed, **calculated_targets}", "            params={k: (v if k == \"beta\" or k == \"shocks\" else {kk: 1.0 for kk in v}) for k, v in params.items()},\n        )\n        processed = {**processed, **calculated_targets}", "C13")
 os.makedirs(os.path.join(ROOT, "mutants"), exist_ok=True)
 bad = 0
 for name, file, old, new, props in M:
